@@ -7,5 +7,5 @@ import (
 )
 
 func TestWorker(t *testing.T) {
-	core.WorkerMain(t, core.Property{ID: "C10", Configs: []string{"clean", "faulty", "secs1"}, Build: Build})
+	core.WorkerMain(t, core.Property{ID: "C10", Configs: []string{"clean", "faulty", "secs1", "slow"}, Build: Build})
 }
